@@ -23,17 +23,35 @@ func c02Run(c *Case) (string, []Fail) {
 	if c.Kind == 5 {
 		return c02RunAck(c)
 	}
-	scn, trace, remaining, finished, err := c02DecodeCase(c)
+	var scn *c02Scn
+	var trace []c02Ev
+	var remaining []int64
+	var finished bool
+	var err error
+	var dd []c02Exch
+	if c.Kind == 6 {
+		scn, dd, trace, remaining, finished, err = c02DecodeDDCase(c)
+	} else {
+		scn, trace, remaining, finished, err = c02DecodeCase(c)
+	}
 	if err != nil {
 		return "badcase", nil
 	}
 	_, _, _, out := c02Projection(trace, remaining, finished)
 	fails := c02Judge(c.Kind, scn, trace, remaining, finished)
+	if c.Kind == 6 {
+		out = c02DDOut(trace, remaining, finished)
+		fails = append(fails, c02DDOracle(scn, trace, dd)...)
+	}
 	if !c02InGen {
 		defs.ForwarderMaxPendingChunksForAck = scn.Cap
 		for i := 0; i < 3; i++ {
 			res := c02RunScenario(scn)
-			for _, f := range c02Judge(c.Kind, scn, res.Trace, res.Remaining, res.Finished) {
+			fresh := c02Judge(c.Kind, scn, res.Trace, res.Remaining, res.Finished)
+			if c.Kind == 6 && !res.DDBad {
+				fresh = append(fresh, c02DDOracle(scn, res.Trace, res.DD)...)
+			}
+			for _, f := range fresh {
 				f.Desc = "(fresh run of the scenario) " + f.Desc
 				fails = append(fails, f)
 			}
@@ -43,6 +61,9 @@ func c02Run(c *Case) (string, []Fail) {
 			if os.Getenv("C02_RECORD") != "" && i == 0 {
 				// the fresh run as a case line (to refresh corpus/C02/*.txt after a change of the client)
 				sa, za := c02EncodeCase(scn, res)
+				if c.Kind == 6 {
+					sa, za = c02EncodeDDCase(scn, res)
+				}
 				fmt.Fprintf(os.Stderr, "RECORD %s\n", (&Case{Kind: c.Kind, S: sa, Z: za}).Line())
 			}
 		}
@@ -147,6 +168,16 @@ func c02Execute(g *Gen, jobs []*c02Job) {
 	c02RunJobs(jobs)
 	for _, j := range jobs {
 		s, z := c02EncodeCase(j.scn, j.res)
+		if j.kind == 6 {
+			if j.res.DDBad {
+				g.Count("I:datadog-status:unpaired(no verdict)")
+				continue
+			}
+			if j.res.DDGets > 0 {
+				g.Count("seen:redirect-followed")
+			}
+			s, z = c02EncodeDDCase(j.scn, j.res)
+		}
 		g.Case(j.kind, s, z)
 		g.Count(j.tag)
 		c02CountTrace(g, j.res.Trace)
@@ -490,6 +521,9 @@ func c02Gen(g *Gen) {
 			}
 		}
 	}
+
+	// ---- family I: the real datadog connection's status-code decision (c02_datadog.go) ----
+	c02GenDD(g, add)
 
 	c02Execute(g, jobs)
 
